@@ -36,6 +36,12 @@ def run(ctx):
     P = "C16-R1"
     from .confimm import rule_config_as_loaded
     rule_config_as_loaded(ctx, facts, "C16-R1")
+    # "`extensions` defaults to [rs]" / "an empty set of in-scope files": the list means what the finder's membership test
+    # makes of it — the entry's extension, unmodified, compared exactly with the configured strings (C15-R1's rows)
+    from . import c15 as _c15
+    from .c03 import _Only
+    from .c06 import _run_as
+    _run_as(_c15, _Only(ctx, "C16-R6", ("anchor|ext-test", "ext-exact", "ext-list", "ext-of-entry", "ext-unmodified", "push-only-match", "anchor|find", "anchor|walk-loop")), ctx)
     wiring = {
         "default_use_cache": ("Config", 1),
         "default_rust_structured": ("RustConfig", 0),
